@@ -93,8 +93,8 @@ def run_real(exe, probes, models, slow):
     i, deaths = 0, 0
     env = core.qenv(4, 1, stack=65536)
     CHUNK = 1200
-    while i < len(probes) and deaths < 40:
-        lines = ["m %s %s %d %s %d %d %d %d %g" % (p + (m["c1"], 1 if (m["c2"] or m["c1"]) else 0, slow))
+    while i < len(probes) and deaths < 12:       # (a hang costs `slow` seconds: after two of them the watchdog is shortened)
+        lines = ["m %s %s %d %s %d %d %d %d %g" % (p + (m["c1"], 1 if (m["c2"] or m["c1"]) else 0, slow if deaths < 2 else 3.0))
                  for p, m in zip(probes[i:i + CHUNK], models[i:i + CHUNK])]
         rc, out, err = core.run_lines(exe, lines, timeout=900, env=env)
         if not out or not out[0].startswith("H "):
